@@ -148,3 +148,32 @@ fn vfind_c15_small_peer_timeouts() {
         }
     }
 }
+
+/// C18 / F6: every key pair printed by key generation is accepted when configured (also when the seed or the public
+/// key starts with a zero byte, which the number-like text form does not represent)
+#[test]
+fn vfind_c18_generated_keys_with_leading_zero_byte() {
+    use crate::crypto::{Config as CryptoCfg, Crypto};
+    use crate::util::from_base62;
+    let mut seen_short_priv = false;
+    let mut seen_short_pub = false;
+    for i in 0..3000 {
+        let (privkey, pubkey) = Crypto::generate_keypair(Some(&format!("vfind-password-{}", i)));
+        let short_priv = from_base62(&privkey).unwrap().len() < 32;
+        let short_pub = from_base62(&pubkey).unwrap().len() < 32;
+        if !short_priv && !short_pub {
+            continue;
+        }
+        seen_short_priv |= short_priv;
+        seen_short_pub |= short_pub;
+        let cfg = CryptoCfg { private_key: Some(privkey.clone()), public_key: Some(pubkey.clone()), trusted_keys: vec![pubkey.clone()], ..Default::default() };
+        assert!(Crypto::new([0; 16], &cfg).is_ok(), "generated key pair rejected: {} / {}", privkey, pubkey);
+        let cfg = CryptoCfg { private_key: Some(privkey.clone()), ..Default::default() };
+        assert!(Crypto::new([0; 16], &cfg).is_ok(), "generated private key rejected: {}", privkey);
+        assert_eq!(Crypto::public_key_from_private_key(&privkey).unwrap(), pubkey);
+        if seen_short_priv && seen_short_pub {
+            break;
+        }
+    }
+    assert!(seen_short_priv && seen_short_pub, "no key with a leading zero byte found in the sample");
+}
